@@ -208,8 +208,10 @@ def _poll_accept(ctx, a, c):
         acc.polls_after_signal += 1
     if acc.fail:
         acc.fail = False
+        acc.waiter = None
         return READY(err(Opaque("listener error")))
     if acc.queue:
+        acc.waiter = None  # a waker is only registered by a poll that returns Pending
         sid = acc.queue.pop(0)
         if w.signal.fired:
             w.viol.append(f"connection {sid} accepted although the shutdown signal had already resolved")
@@ -254,6 +256,7 @@ class MakeFutV:
         if self.outcome is None:
             self.waiter = task_of(ctx, cx)
             return PENDING()
+        self.waiter = None
         if self.outcome == "ok":
             return READY(ok(Opaque(f"service{self.sid}")))
         return READY(err(Opaque("make-service error")))
@@ -383,6 +386,7 @@ class World:
         self.accepted, self.making, self.conns, self.drivers = [], [], {}, []
         self.viol, self.trace = [], []
         self.next_sid = 0
+        self.fault = None
         self.server_result = None
         server = ctx.exec_fn(fns["server_new"], [self.acceptor, Opaque("protocol"), self.makesvc, self.executor])
         if graceful:
@@ -419,6 +423,12 @@ class World:
                     acts.append(("client-close", sid))
         if self.graceful and not self.signal.fired:
             acts.append(("signal",))
+        if not self.graceful and self.server_result is None and not self.fault:
+            # faults of the listener itself / of the make-service: the only things allowed to end the server
+            acts.append(("accept-error",))
+            for f in self.making:
+                if f.outcome is None:
+                    acts.append(("make-err", f.sid))
         return acts
 
     def apply(self, a):
@@ -467,8 +477,20 @@ class World:
             cn = self.conns[a[1]]
             cn.client_gone = True
             wake(ctx, cn.waiter)
+        elif k == "accept-error":
+            self.fault = "listener"
+            self.acceptor.fail = True
+            wake(ctx, self.acceptor.waiter)
+        elif k == "make-err":
+            self.fault = "make-service"
+            f = [x for x in self.making if x.sid == a[1]][0]
+            f.outcome = "err"
+            wake(ctx, f.waiter)
         elif k == "signal":
             self.signal.fired = True
+            for cn in self.conns.values():
+                cn.in_flight_at_signal = cn.in_flight
+                cn.served_at_signal = cn.served
             wake(ctx, self.signal.waiter)
         else:
             raise Inconclusive("action " + repr(a))
@@ -514,11 +536,13 @@ def obligations(prog, src, tier, seed, which="C07"):
     }
     funcs = ["server::Server::{new,with_graceful_shutdown,into_future}", "server::Serving::{poll,poll_once}", "server::GracefulShutdown::{new,poll}", "server::{close,CloseSender::send,CloseReciever::into_future (async block),CloseFuture::poll}",
              "server::conn::drivers::{ConnectionDriver::poll,GracefulConnectionDriver::{new,poll}}"]
-    depth = 4 if tier == "quick" else 6
+    depths = {0: 5, 1: 4, 2: 3} if tier == "quick" else {0: 7, 1: 6, 2: 4}
     max_conns = 2
     total_conns = 3
 
-    def mk_run(graceful):
+    def mk_run(graceful, pre=None):
+        depth = depths[len(pre or ())]
+
         def run(ctx):
             ctx.coroutines = True
             ctx.now = z3.IntVal(0)
@@ -527,16 +551,15 @@ def obligations(prog, src, tier, seed, which="C07"):
             ctx.world = w
             # pre-state: 0..2 connections already established (accepted, service made, driver spawned),
             # each driver polled or not yet, each connection idle or with a request in flight
-            n_est = ctx.choose([(True, k) for k in range(0, max_conns + 1)], "established connections")
             w.apply(("poll-server",))
-            for sid in range(n_est):
+            for sid, (polled, inflight) in enumerate(pre or ()):
                 w.apply(("connect",))
                 w.apply(("poll-server",))
                 w.apply(("make-ok", sid))
                 w.apply(("poll-server",))
-                if ctx.choose([(True, True), (True, False)], f"driver {sid} already polled"):
+                if polled:
                     w.apply(("poll-driver", sid))
-                if ctx.choose([(True, False), (True, True)], f"request in flight on connection {sid}"):
+                if inflight:
                     w.apply(("request", sid))
             w.prefix = list(w.trace)
             for step in range(depth):
@@ -586,29 +609,93 @@ def obligations(prog, src, tier, seed, which="C07"):
         w = p.value
         t = f" -- schedule: {w.trace}"
         props = [(f"[C09] {v}{t}", False) for v in w.viol]
-        props.append((f"[C09] the serving future ended although the listener and the make-service are healthy (only connections failed){t}", w.server_result is None))
-        for j, d in enumerate(w.drivers):
-            cn = None
-            props.append((f"[C09] connection driver {j} never completes although its connection has{t}", d["done"] or True))
-        for sid, cn in w.conns.items():
-            if cn.finished is not None:
-                pass
-        # every connection that was accepted and whose service was made is being driven
+        res = w.server_result
+        if w.fault is None:
+            props.append((f"[C09] the serving future ended although the listener and the make-service are healthy (only connections failed or closed){t}", res is None))
+            props.append((f"[C09] the server no longer waits for new connections{t}",
+                          res is not None or w.acceptor.waiter == "server" or "server" in p.ctx.woken or any(f.outcome is None and f.waiter == "server" for f in w.making)))
+            props.append((f"[C09] client connection(s) {w.acceptor.queue} are still queued at the listener at quiescence although the server is running{t}", res is not None or not w.acceptor.queue))
+        elif res is not None:
+            props.append((f"[C09] the serving future ended successfully after a {w.fault} fault{t}", res.variant == "Err"))
+        # every connection that was set up is driven, and a driver ends exactly when its connection does
         props.append((f"[C09] {len(w.conns)} connections were set up but {len(w.drivers)} drivers were spawned{t}", len(w.conns) == len(w.drivers)))
-        # the listener is still being watched: a new client would wake the server
-        props.append((f"[C09] the server no longer waits for new connections{t}", w.server_result is not None or w.acceptor.waiter == "server" or "server" in p.ctx.woken or any(f.outcome is None for f in w.making)))
+        for j, d in enumerate(w.drivers):
+            cn = w.conns.get(j)
+            if cn is None:
+                continue
+            if cn.finished is not None:
+                props.append((f"[C09] connection {j} has finished ({cn.finished}) but its driver is still pending{t}", d["done"]))
+            else:
+                props.append((f"[C09] driver {j} ended although its connection is still open{t}", not d["done"]))
         props.append(("witness:reach", z3.BoolVal(True)))
         return props
 
+    def scenario_c09(p, m):
+        w = p.value if p.outcome != "panic" else None
+        tr = w.trace if w is not None else []
+        fault = "none"
+        if any(a[0] == "conn-error" for a in tr):
+            fault = "garbage"
+        elif any(a[0] == "client-close" for a in tr):
+            fault = "early_close"
+        elif w is not None and w.conns:
+            fault = "idle"
+        return {"family": "serving_probe", "fault": fault, "schedule": str(tr)}
+
+    def judge_c09(scn, out):
+        if out.get("result", "").startswith(("panic", "crash")):
+            return True
+        if "served" not in out:
+            return None
+        return out.get("server_alive") == "0" or int(out.get("served", "2")) < 2
+
+    def scenario_c07(p, m):
+        w = p.value if p.outcome != "panic" else None
+        stage = "none"
+        if w is not None and w.conns:
+            # where was the (first) connection when the signal fired?
+            cn = w.conns[min(w.conns)]
+            stage = "in_flight" if getattr(cn, "in_flight_at_signal", False) else ("idle" if getattr(cn, "served_at_signal", 0) else "sniffing")
+        scn = {"family": "graceful", "stage": stage, "schedule": str(w.trace if w is not None else "")}
+        if w is not None and (w.acceptor.polls_after_signal or any("accepted although" in v or "spawned after" in v for v in w.viol)):
+            scn["late"] = "queued"
+        return scn
+
+    def judge_c07(scn, out):
+        if out.get("result", "").startswith(("panic", "crash")) or out.get("server_done") == "panicked":
+            return True
+        if "server_done" not in out:
+            return None
+        claim = scn.get("claim", "")
+        if "accepted although" in claim or "polled for new connections" in claim or "spawned after" in claim:
+            return out.get("late_served") == "1" or out.get("late_accepted") == "1"
+        if "in flight" in claim:
+            return out.get("response_complete") == "0"
+        if "server future" in claim:
+            return out.get("server_done") != "ok"
+        if "closed" in out:
+            return out.get("closed") == "0"
+        return None
+
     obs = []
+    import itertools
+    conn_states = list(itertools.product((False, True), (False, True)))  # (driver polled, request in flight)
+    pres = [()] + [(a,) for a in conn_states] + [(a, b) for a, b in itertools.combinations_with_replacement(conn_states, 2)]
+
+    def tag(pre):
+        return "pre" + "".join(("p" if p_ else "n") + ("r" if r_ else "i") for p_, r_ in pre) if pre else "pre0"
     if which == "C07":
-        obs.append({"name": "c07_graceful_shutdown_schedules", "family": "graceful_schedules", "funcs": funcs,
-                    "bound": f"pre-state: 0..{max_conns} established connections (driver polled or not, idle or with a request in flight); up to {total_conns} connections in all; every schedule of {depth} actions from {{connect, make-service resolves, request arrives, response completes, connection error, client closes, shutdown signal, poll server / driver (only if woken)}}, then the signal (if it has not fired) and a drain in which pending make-service futures resolve and in-flight exchanges complete",
+      for pre in pres:
+        obs.append({"name": "c07_graceful_shutdown_" + tag(pre), "family": "graceful_schedules", "funcs": funcs,
+                    "bound": f"pre-state {tag(pre)}: {len(pre)} established connection(s) (p/n = driver polled or not, r/i = request in flight or idle); up to {total_conns} connections in all; every schedule of {depths[len(pre)]} actions from {{connect, make-service resolves, request arrives, response completes, connection error, client closes, shutdown signal, poll server / driver (only if woken)}}, then the signal (if it has not fired) and a drain in which pending make-service futures resolve and in-flight exchanges complete",
                     "doc": "after the signal: no accept, no new driver, the server future completes Ok; every open connection is told to shut down exactly once and polled again; no in-flight exchange is dropped; every driver finishes",
-                    "run": mk_run(True), "check": check_graceful, "crosscheck": False, "max_paths": 2000000, "loop_bound": 40})
+                    "run": mk_run(True, pre), "check": check_graceful, "crosscheck": False, "max_paths": 2000000, "loop_bound": 40,
+                    "cex_extract": scenario_c07, "judge": judge_c07})
     else:
-        obs.append({"name": "c09_serving_loop_schedules", "family": "serving_schedules", "funcs": funcs,
-                    "bound": f"pre-state: 0..{max_conns} established connections; up to {total_conns} in all; every schedule of {depth} actions (no listener / make-service fault injected), then a drain",
+      for pre in pres:
+        obs.append({"name": "c09_serving_loop_" + tag(pre), "family": "serving_schedules", "funcs": funcs,
+                    "bound": f"pre-state {tag(pre)}: {len(pre)} established connection(s); up to {total_conns} in all; every schedule of {depths[len(pre)]} actions (no listener / make-service fault injected), then a drain",
                     "doc": "connection errors and client disconnects never end the serving future; every set-up connection has a driver; the listener stays watched",
-                    "run": mk_run(False), "check": check_serving, "crosscheck": False, "max_paths": 2000000, "loop_bound": 40})
+                    "run": mk_run(False, pre), "check": check_serving, "crosscheck": False, "max_paths": 2000000, "loop_bound": 40,
+                    "cex_extract": scenario_c09, "judge": judge_c09})
     return obs
